@@ -129,6 +129,7 @@ def _judge_forked(mod, case, timeout):
             try:   # whatever the case writes to the real stdout must not reach the check's own output
                 devnull = os.open(os.devnull, os.O_WRONLY)
                 os.dup2(devnull, 1)
+                os.dup2(devnull, 2)       # (failures of the harness itself travel through the pipe, not through stderr)
                 os.dup2(os.open(os.devnull, os.O_RDONLY), 0)
             except OSError:
                 pass
